@@ -202,6 +202,18 @@ def token_oracle(bs, r):
         prev = (el, ec, what)
     prevc = (1, 1)
     for i, c in enumerate(comments):
+        # where a comment really ends: a block comment at the FIRST */ after its opener, a line comment before the
+        # first line break (a span that runs on to a later closer swallows the elements in between)
+        try:
+            ctext = bytes.fromhex(c.get("thex", ""))
+        except ValueError:
+            ctext = b""
+        if ctext.startswith(b"/*"):
+            j = ctext.find(b"*/", 2)
+            if j >= 0 and j != len(ctext) - 2:
+                fails.append(("comment_end", "block comment %d %r runs past its first closing */ (it really ends %d bytes earlier)" % (i, ctext[:40], len(ctext) - 2 - j)))
+        elif ctext.startswith(b"--") and (b"\n" in ctext[:-1]):
+            fails.append(("comment_end", "line comment %d %r runs past the end of its line" % (i, ctext[:40])))
         check_loc(T, "comment %d start" % i, c["sl"], c["sc"], None, fails)
         check_loc(T, "comment %d end" % i, c["el"], c["ec"], None, fails)
         if (c["sl"], c["sc"]) < prevc or (c["el"], c["ec"]) < (c["sl"], c["sc"]):
@@ -254,6 +266,10 @@ def tokerr_oracle(bs, r):
     check_loc(T, "tokenizer error " + e.get("code", ""), line, col, None, fails)
     if fails:
         return fails
+    # an "unterminated block comment" must be located at a comment that really has no closer
+    off0 = T.offset_of(line, col) if hasattr(T, "offset_of") else None
+    if off0 is not None and bs.startswith(b"/*", off0) and bs.find(b"*/", off0 + 2) >= 0 and "nterminated" in (e.get("msg") or e.get("text") or ""):
+        fails.append(("comment_end", "a block comment that is closed is reported as unterminated at %d:%d" % (line, col)))
     anchors = [min(r["pos_index"], T.n)]
     if r.get("good_prefix", -1) >= 0:
         anchors.append(skip_sep(bs, r["good_prefix"]))
@@ -445,7 +461,7 @@ OPERATORS = ["(", ")", ",", ";", ".", "+", "-", "*", "/", "=", "<", ">", "<=", "
 PLACEHOLDERS = ["$1", "$23", "?", ":name", "@v"]
 DOLLARS = ["$$x$$", "$$a\nb$$", "$t$ body $t$", "$fn$\n  SELECT 1;\n$fn$", "$$$$"]
 LINE_COMMENTS = ["-- c", "--", "-- héllo wörld", "-- 'quote", "--x--y", "-- /* z", "-- tab\tin comment"]
-BLOCK_COMMENTS = ["/* c */", "/**/", "/* a\n b */", "/* é */", "/*\n\n*/", "/* -- */", "/* ' */", "/* * / */", "/*\tt */"]
+BLOCK_COMMENTS = ["/* c */", "/**/", "/* a\n b */", "/* é */", "/*\n\n*/", "/* -- */", "/* ' */", "/* * / */", "/*\tt */", "/***/", "/****/", "/** doc **/", "/* text **/", "/* a ***/", "/* a * b * c */", "/* / * */"]
 
 
 def gen_sep(rng, mode):
